@@ -7,6 +7,7 @@ for f in sorted(glob.glob('/verif/seeded/*/meta.json'), key=lambda p:(re.sub(r'-
     what=re.sub(r'\s+',' ',str(m.get('what') or m.get('change') or '')).replace('|','/')
     if len(what)>170: what=what[:167]+'...'
     det=m.get('detected_by') or []
+    if isinstance(det,str): det=[det]
     sil=[c for c in (m.get('silent') or []) if c not in det]
     if m.get('obsolete'):
         res='obsolete (the code path it relied on was removed by a later repair)'
